@@ -2398,8 +2398,19 @@ func runKMountC16(c *core.Case, k int) {
 				r.close()
 			}
 		}
-		err := cli.Import(context.Background(), P.URL(), "db", bytes.NewReader(body))
-		hist = append(hist, fmt.Sprintf("import round %d (page size %d): %v", round, ps, err))
+		var err error
+		viaCLI := os.Getenv("VERIF_LITEFS_BIN") != "" && (k+round)%2 == 0
+		if viaCLI {
+			// the command line tool of the same build: litefs import -url ... -name db <file>
+			out, cerr := exec.Command(os.Getenv("VERIF_LITEFS_BIN"), "import", "-url", P.URL(), "-name", "db", filepath.Join(c.Dir, fmt.Sprintf("src-r%d.db", round))).CombinedOutput()
+			if cerr != nil {
+				err = fmt.Errorf("litefs import: %v: %s", cerr, strings.TrimSpace(string(out)))
+			}
+			c.Count("kmount_cli_imports", 1)
+		} else {
+			err = cli.Import(context.Background(), P.URL(), "db", bytes.NewReader(body))
+		}
+		hist = append(hist, fmt.Sprintf("import round %d (page size %d, cli %v): %v", round, ps, viaCLI, err))
 		if healthViolations(c, P.Node, "import", detail()) {
 			return
 		}
@@ -2461,16 +2472,32 @@ func runKMountC16(c *core.Case, k int) {
 			return
 		}
 		// export: plain SQLite must read from it what the mount shows
-		rc, err := cli.Export(context.Background(), P.URL(), "db")
-		if err != nil {
-			fail("export-failed", err.Error())
-			return
-		}
-		exp, err := io.ReadAll(rc)
-		rc.Close()
-		if err != nil {
-			fail("export-failed", err.Error())
-			return
+		var exp []byte
+		if viaCLI {
+			outPath := filepath.Join(c.Dir, fmt.Sprintf("export-r%d.db", round))
+			_ = os.Remove(outPath)
+			out, cerr := exec.Command(os.Getenv("VERIF_LITEFS_BIN"), "export", "-url", P.URL(), "-name", "db", outPath).CombinedOutput()
+			if cerr != nil {
+				fail("export-failed", fmt.Sprintf("litefs export: %v: %s", cerr, strings.TrimSpace(string(out))))
+				return
+			}
+			if exp, err = os.ReadFile(outPath); err != nil {
+				fail("export-failed", err.Error())
+				return
+			}
+			c.Count("kmount_cli_exports", 1)
+		} else {
+			rc, err := cli.Export(context.Background(), P.URL(), "db")
+			if err != nil {
+				fail("export-failed", err.Error())
+				return
+			}
+			exp, err = io.ReadAll(rc)
+			rc.Close()
+			if err != nil {
+				fail("export-failed", err.Error())
+				return
+			}
 		}
 		eh, integ, err := plainHash(c.Dir, ref.ImageFromBytes(uint32(ps), exp), fmt.Sprintf("exp%d", round))
 		if err != nil || integ != "ok" || eh != cur {
